@@ -1,4 +1,4 @@
 CONSTANTS SLen = 2 Wide = FALSE BigSizes = {65524, 70000} What = {"pdus", "big", "strict"}
 SPECIFICATION GSpec
-INVARIANT Emit
+INVARIANTS Emit GTheorems
 CHECK_DEADLOCK FALSE
